@@ -189,8 +189,11 @@ def call_union(rng: Rng, i: int, d33: bool = False) -> CallUnion:
                     m[k] = {"minimum": lo, "exclusiveMinimum": lo, "maximum": hi, "exclusiveMaximum": hi, "multipleOf": mults[j]}[k]
                 members.append(m)
         for k in sh:
-            for j in group[1:]:
-                members[j][k] = members[group[0]][k]
+            vals = [members[j][k] for j in group]
+            # an upper bound shared = the largest, a lower bound shared = the smallest: every member keeps a range
+            v = max(vals) if k in ("maximum", "exclusiveMaximum", "maxLength") else (min(vals) if k in ("minimum", "exclusiveMinimum", "minLength") else vals[0])
+            for j in group:
+                members[j][k] = v
         # a shared bound must leave every member a non-empty range
         ok = True
         for m in members:
@@ -204,7 +207,7 @@ def call_union(rng: Rng, i: int, d33: bool = False) -> CallUnion:
         good, bad = u.boundaries()
         need = {(j, k) for j, m in enumerate(members) for k in m if k != "type"}
         have = {(j, k) for k, j, _x in bad}
-        if good and len(need - have) <= (1 if attempt < 30 else len(need)):
+        if (good and len(need - have) <= (1 if attempt < 30 else len(need))) or (attempt >= 40 and (good or bad)):
             break
     else:
         raise RuntimeError(f"call_union({i}): no satisfiable union")
